@@ -15,7 +15,7 @@ RULE = ("case kinds: 3 of 4 a random Hypergraph (1-8 nodes, sizes 1-5, nested hy
         "state checked for the directed line graph. non-trivial = >=2 hyperedges sharing a node; distinct = by abstract state")
 DECIDING = ["C10:bipartite", "C10:clique", "C10:line", "C10:directed-line", "C10:simplicial"]
 ASSUMPTIONS = ["thresholds s compare with the similarity computed by the same float expression len(a&b)/len(a|b)"]
-JS = [0.1, 0.25, 1 / 3, 0.5, 2 / 3, 1.0]
+JS = sorted({i / u for u in range(1, 11) for i in range(1, u + 1)})  # every similarity value two hyperedges of size <= 5 can realise
 
 
 class NullCtx:
@@ -40,6 +40,18 @@ def run_case(ctx, rng, idx):
         e = rng.choice(es)
         if len(e) >= 2:
             h.add_edge(tuple(rng.sample(list(e), len(e) - 1)), weight=1 if h.is_weighted() else None)
+    undirected_eval(ctx, rng, idx, h)
+    from ..mutate import same_count_edit
+
+    if same_count_edit(rng, h):
+        ctx.event("re-evaluated-after-in-place-edit")
+        undirected_eval(ctx, rng, idx, h)
+
+
+def undirected_eval(ctx, rng, idx, h):
+    from hypergraphx.representations import projections as pr
+    from hypergraphx.representations.simplicial_complex import simplicial_complex
+
     S = observe(h)
     nodes = set(S.nodes)
     edges = list(S.edges)
@@ -85,8 +97,8 @@ def run_case(ctx, rng, idx):
             ctx.check("C10:clique", V <= nodes and V >= set().union(*exp_pairs) if exp_pairs else V <= nodes, "C10:clique(keep_isolated=False):node-set", lambda: wit(V))
     # ---- line graph -------------------------------------------------------------------------
     combos = [("intersection", s) for s in (1, 2, 3, 4)] + [("jaccard", s) for s in JS]
-    if ctx.tier == "quick":
-        combos = rng.sample(combos, 5)
+    realised = sorted({len(a & b) / len(a | b) for a, b in itertools.combinations(edges, 2) if a & b})
+    combos = rng.sample(combos, 5 if ctx.tier == "quick" else 10) + [("jaccard", s) for s in realised[:6]]  # thresholds hit exactly
     for kind, s in combos:
         for weighted in (False, True):
             for name, fn in (("function", lambda: pr.line_graph(h, kind, s, weighted)), ("method", lambda: h.to_line_graph(kind, s, weighted))):
@@ -147,13 +159,26 @@ def directed_case(ctx, rng, idx):
         ctx.note("build-failed:" + type(e).__name__)
         return
     h = live[0][0]
+    directed_eval(ctx, rng, idx, h)
+    from ..mutate import same_count_edit
+
+    if same_count_edit(rng, h, directed=True):
+        ctx.event("re-evaluated-after-in-place-edit")
+        directed_eval(ctx, rng, idx, h)
+
+
+def directed_eval(ctx, rng, idx, h):
+    from hypergraphx.representations import projections as pr
+
     S = observe(h)
     edges = list(S.edges)
 
     def wit(extra=None):
         return {"object": S.describe(), "extra": repr(extra)[:700]}
 
-    combos = [("intersection", s) for s in (1, 2, 3)] + [("jaccard", s) for s in JS]
+    combos = [("intersection", s) for s in (1, 2, 3)] + [("jaccard", s) for s in rng.sample(JS, 6)]
+    realised = sorted({len(a[1] & b[0]) / len(a[1] | b[0]) for a in edges for b in edges if a != b and a[1] & b[0]})
+    combos += [("jaccard", s) for s in realised[:6]]
     for kind, s in combos:
         for weighted in (False, True):
             r = call(pr.directed_line_graph, h, kind, s, weighted) if rng.random() < 0.7 else call(h.to_line_graph, kind, s, weighted)
